@@ -1,6 +1,5 @@
 """C06 — relay entry requests are processed at most once and in order."""
 META = {
-    "disabled": True,
     "level": "model_checking",
     "text": "TLC exhaustively checks the (currentRequestStartBlock, currentRequestPreviousEntry) state machine of "
             "Deduplicator.NotifyRelayEntryStarted (one atomic action per branch, chain answers including both error paths) for "
